@@ -131,6 +131,24 @@ class FakeKernel:
         return 0
 
     # ---- scripting
+    def path_gone(self, path):
+        """The watched directory `path` was deleted: on every open inotify descriptor that watches it the kernel drops the
+        watch and queues IN_DELETE_SELF (when in the mask) and IN_IGNORED - whether or not anybody has read them yet."""
+        n = 0
+        for fd, st in self.fds.items():
+            if st["kind"] != "inotify" or not st["open"]:
+                continue
+            for wd, w in list(st["watches"].items()):
+                if w["path"] == path or w["path"] == _os.fsencode(path) if isinstance(path, str) else w["path"] == path:
+                    st["watches"].pop(wd)
+                    st["by_key"].pop(w["key"], None)
+                    if w["mask"] & IN["DELETE_SELF"]:
+                        st["queue"].append(pack_event(wd, IN["DELETE_SELF"], 0, b""))
+                    st["queue"].append(pack_event(wd, IN["IGNORED"], 0, b""))
+                    self.log.append(("path_gone", fd, wd))
+                    n += 1
+        return n
+
     def feed(self, fd, *events: bytes):
         """Append raw inotify_event records to the descriptor's unread queue."""
         self.fds[fd]["queue"].extend(events)
